@@ -243,6 +243,22 @@ fn case_fn(case: &mut Case, base: &Path) -> CaseResult {
             }
         }
     }
+    // one project in six (when no schema fault was injected): the schema is given as the introspection JSON a
+    // server would return for it (one file) instead of SDL files
+    if !injected.iter().any(|x| x.kind == "schema") && case.ch.chance(1, 6) {
+        let io = crate::introspect::IntrospectOpts { meta_types: case.ch.flip(), absent_optionals: case.ch.flip(), shuffle: false };
+        let js = crate::introspect::introspect(&gp.gs.schema, &io, None);
+        let dir = crate::projects::dir_of(&gp.schema_files[0].0);
+        let json_rel = format!("{dir}/schema.introspection.json");
+        // the config's schema entry: same directory, relative to the config root
+        let old_glob = gp.config.lines().find(|l| l.starts_with("schema:")).unwrap_or("").to_string();
+        let new_line = old_glob.replace("*.graphqls", "schema.introspection.json");
+        if new_line != old_glob {
+            gp.config = gp.config.replacen(&old_glob, &new_line, 1);
+            gp.schema_files = vec![(json_rel, js)];
+            case.label("introspection-json-schema");
+        }
+    }
     let proj = write_project(&gp, base);
     let cwd = proj.path(&gp.layout.root);
     let mut inputs: BTreeMap<String, (String, &'static str)> = BTreeMap::new();
